@@ -62,7 +62,7 @@ func verifCellIs(p value.Primary, want verifCellSpec) bool {
 }
 
 // One data-changing statement (built by the real parser, run by the real Processor) on a temporary
-// table of 3 rows (id, a, b) whose a/b cells are NULL or arbitrary int64: the table afterwards
+// table of 3 rows (thorough 5) (id, a, b) whose a/b cells are NULL or arbitrary int64: the table afterwards
 // equals the reference edit, all other cells are the very same objects, order is kept and the
 // reported count is right.
 func VerifC05Statements() {
@@ -70,8 +70,8 @@ func VerifC05Statements() {
 	tx.Flags.Quiet = true
 	proc := NewProcessor(tx)
 	scope := proc.ReferenceScope
-	const n = 3
-	var a, b [n]verifCellSpec
+	n := verifBound(3, 5)
+	a, b := make([]verifCellSpec, n), make([]verifCellSpec, n)
 	rows := make([][]value.Primary, n)
 	for i := 0; i < n; i++ {
 		a[i] = verifCellSpec{null: verifBool("a.null"), v: verifInt64("a")}
